@@ -44,6 +44,7 @@ class Ctx:
         self.max_paths = max_paths
         self.deadline = deadline
         self.inputs = {}  # name -> z3 const (registered per path)
+        self.bounds = {}  # name -> declared domain constraints
         self.stats = dict(
             paths=0, aborted=0, forks=0, forced=0, solver_calls=0, solver_s=0.0,
             obligations=0, discharged=0, trivial=0, sat=0, unsat=0, unknown=0,
@@ -605,6 +606,8 @@ def sfloor_int(x):
 
 def strunc_int(x):
     """C-style truncation toward zero to an integer (``astype(int)``)."""
+    if hasattr(x, 'trunc_int'):
+        return x.trunc_int()
     if isinstance(x, SNum):
         if x.is_int:
             return x
@@ -618,6 +621,8 @@ def strunc_int(x):
 
 def srint(x):
     """Round half to even (numpy around/rint), real-valued result."""
+    if type(x).__name__ == 'SF64':
+        return x.rint()
     if isinstance(x, SNum):
         if x.is_int:
             return x
@@ -667,22 +672,28 @@ def _register(name, t):
 def sym_int(name, lo=None, hi=None):
     t = _register(name, z3.Int(name))
     c = ctx()
+    bs = []
     if lo is not None:
-        c.solver.add(t >= lo)
+        bs.append(t >= lo)
     if hi is not None:
-        c.solver.add(t <= hi)
+        bs.append(t <= hi)
+    c.solver.add(*bs)
+    c.bounds[name] = bs
     return SNum(t)
 
 
 def sym_real(name, lo=None, hi=None, lo_strict=False, hi_strict=False):
     t = _register(name, z3.Real(name))
     c = ctx()
+    bs = []
     if lo is not None:
         l = z3.RealVal(str(rat(lo)))
-        c.solver.add(t > l if lo_strict else t >= l)
+        bs.append(t > l if lo_strict else t >= l)
     if hi is not None:
         h = z3.RealVal(str(rat(hi)))
-        c.solver.add(t < h if hi_strict else t <= h)
+        bs.append(t < h if hi_strict else t <= h)
+    c.solver.add(*bs)
+    c.bounds[name] = bs
     return SNum(t)
 
 
@@ -718,6 +729,9 @@ def _val(v):
     if z3.is_algebraic_value(v):
         a = v.approx(30)
         return Fraction(a.numerator_as_long(), a.denominator_as_long())
+    if z3.is_fp(v) or z3.is_bv_value(v):
+        from .fp import fp_model_value
+        return fp_model_value(v)
     raise Inconclusive(f'cannot read model value {v}')
 
 
@@ -811,6 +825,57 @@ def prove(label, phi, known=None, detail=None):
     c.stats['discharged'] += 1
     c.labels[label] = c.labels.get(label, 0) + 1
     return True
+
+
+def _free_consts(t, acc):
+    seen = set()
+    stack = [t]
+    while stack:
+        e = stack.pop()
+        if e.get_id() in seen:
+            continue
+        seen.add(e.get_id())
+        if z3.is_const(e) and e.decl().kind() == z3.Z3_OP_UNINTERPRETED:
+            acc[e.decl().name()] = e
+        else:
+            stack.extend(e.children())
+    return acc
+
+
+def prove_isolated(label, phi, given=(), known=None, detail=None, timeout_ms=20000):
+    """Like :func:`prove`, but first tries a fresh solver that only holds the declared domains of the
+    variables occurring in ``phi``/``given`` plus ``given`` (fewer assumptions => a stronger statement, so
+    unsat there discharges the obligation).  Anything else falls back to the full path-condition query."""
+    c = ctx()
+    p = z3.simplify(_bt(phi))
+    if z3.is_true(p):
+        return prove(label, True)
+    gs = [_bt(g) for g in given]
+    names = {}
+    _free_consts(p, names)
+    for g in gs:
+        _free_consts(g, names)
+    s = z3.Solver()
+    s.set('timeout', timeout_ms)
+    for n in names:
+        for b in c.bounds.get(n, []):
+            s.add(b)
+    s.add(*gs)
+    s.add(z3.Not(p))
+    t = time.time()
+    r = s.check()
+    dt = time.time() - t
+    c.stats['solver_calls'] += 1
+    c.stats['solver_s'] += dt
+    c.stats['max_query_s'] = max(c.stats['max_query_s'], dt)
+    if r == z3.unsat:
+        c.stats['unsat'] += 1
+        c.stats['obligations'] += 1
+        c.stats['discharged'] += 1
+        c.labels[label] = c.labels.get(label, 0) + 1
+        c.stats['isolated'] = c.stats.get('isolated', 0) + 1
+        return True
+    return prove(label, phi, known=known, detail=detail)
 
 
 def _cex(label, detail):
@@ -1011,7 +1076,14 @@ class SRoot(Sym):
 _ite_plain = ite
 
 
-def ite(c, a, b):  # noqa: F811  (extends the scalar ite with SRoot operands)
+def ite(c, a, b):  # noqa: F811  (extends the scalar ite with SRoot / float64 operands)
+    if type(a).__name__ in ('SF64', 'SBV64') or type(b).__name__ in ('SF64', 'SBV64'):
+        if isinstance(c, bool) or type(c).__name__ == 'bool_':
+            return a if c else b
+        from .fp import SF64, SBV64, fpval
+        if type(a).__name__ == 'SBV64' and type(b).__name__ == 'SBV64':
+            return SBV64(z3.If(_bt(c), a.t, b.t))
+        return SF64(z3.simplify(z3.If(_bt(c), fpval(a), fpval(b))))
     if isinstance(a, SRoot) or isinstance(b, SRoot):
         if isinstance(c, bool) or type(c).__name__ == 'bool_':
             return a if c else b
